@@ -103,7 +103,7 @@ TAGS = frozenset({
     "boolop", "cmp", "tuple", "list", "set", "dict", "fstr", "phi", "ifexp", "comp", "bv", "lambda", "loopvar",
     "carried", "loopout", "mut", "setitem", "setattr", "retphi", "not", "undef", "unknown", "modvar", "in-loop",
     # normal forms (alg.py / rules_kernel.py)
-    "poly", "op", "ifnone", "if", "qsel", "msg", "cap", "tvar", "basevar", "name", "bar", "cat", "seq", "bottom",
+    "poly", "op", "ifnone", "if", "qsel", "msg", "cap", "tvar", "basevar", "name", "bar", "cat", "seq", "bottom", "fn",
 })
 _STR_SECOND = frozenset({"glob", "func", "class", "param", "modvar", "closure", "loopvar", "carried", "loopout", "unknown"})
 
@@ -119,6 +119,8 @@ def is_term(x) -> bool:
         return len(x) == 4 and isinstance(x[2], tuple) and isinstance(x[3], tuple)
     if x[0] in ("list", "tuple", "set", "dict") and len(x) == 2:
         return isinstance(x[1], tuple)
+    if x[0] == "fn":
+        return len(x) == 5
     return True
 
 
